@@ -138,14 +138,14 @@ def run_history(ctx, kind, history, max_calls):
 
 # ---- exhaustive short histories (E1) ----------------------------------------------------------------
 BODIES = [[], [["cancel", ["a", 1]]], [["reset", ["a", 0], 0]], [["delay", ["a", 2], -2 * tm.U]], [["call", 0, []]],
-          [["reset", "self", tm.U]], [["raise"]], [["call", 0, []], ["raise"]]]
+          [["reset", "self", tm.U]], [["call", 0, []], ["raise"]]]
 
 
 class World:
     def __init__(self, ctx):
         self.t = make_target("mini")
         self.run = Run(ctx, self.t, 3, history=[])
-        self.nbodies = len(BODIES) - (2 if ctx.quick else 0)  # the raising bodies are enumerated in the thorough tier only
+        self.nbodies = len(BODIES) - (1 if ctx.quick else 0)  # the raising body is enumerated in the thorough tier only
 
     def actions(self):
         n = len(self.run.recs)
